@@ -74,6 +74,8 @@ def run(chk):
     from props import C09 as _c09
     _c09.run_batch_rules(chk, extra_random=2500 if chk.tier == "quick" else 40000)   # values near 2^32 must raise, not wrap
     for f in _compose.load(["_funcs"], chk):
+        if hasattr(f, "table_obligation_setup"):
+            f.table_obligation_setup(chk)      # the function table of THIS working tree (the programs are generated against the model driver)
         if hasattr(f, "run_malformed"):
             f.run_malformed(chk)
         if hasattr(f, "degenerate_list_program"):
